@@ -611,12 +611,16 @@ func grpcDecodeTimeout(timeout string) (time.Duration, error) {
 	if unit == 0 {
 		return 0, protocolError("timeout %q has invalid unit", timeout)
 	}
-	num, err := strconv.ParseInt(timeout[:len(timeout)-1], 10 /* base */, 64 /* bitsize */)
-	if err != nil || num < 0 {
+	digits := timeout[:len(timeout)-1]
+	if !isASCIIDigits(digits) { // no sign, no spaces: ParseInt alone would accept "+1" and "-0"
 		return 0, protocolError("invalid timeout %q", timeout)
 	}
-	if num > 99999999 { // timeout must be ASCII string of at most 8 digits
+	if len(digits) > 8 { // timeout must be ASCII string of at most 8 digits
 		return 0, protocolError("timeout %q is too long", timeout)
+	}
+	num, err := strconv.ParseInt(digits, 10 /* base */, 64 /* bitsize */)
+	if err != nil {
+		return 0, protocolError("invalid timeout %q", timeout)
 	}
 	const grpcTimeoutMaxHours = math.MaxInt64 / int64(time.Hour) // how many hours fit into a time.Duration?
 	if unit == time.Hour && num > grpcTimeoutMaxHours {
@@ -625,6 +629,17 @@ func grpcDecodeTimeout(timeout string) (time.Duration, error) {
 		return 0, errNoTimeout
 	}
 	return time.Duration(num) * unit, nil
+}
+
+// isASCIIDigits reports whether s consists of one or more ASCII digits,
+// which is how every protocol spells the count of a timeout.
+func isASCIIDigits(s string) bool {
+	for i := 0; i < len(s); i++ {
+		if s[i] < '0' || s[i] > '9' {
+			return false
+		}
+	}
+	return s != ""
 }
 
 func grpcEncodeTimeout(timeout time.Duration) string {
